@@ -88,6 +88,15 @@ Proof. intros H. apply (num_not_tok cCOLON n v H); [discriminate | reflexivity].
 Lemma num_not_comma n v : num n v -> is_tok cCOMMA n = false.
 Proof. intros H. apply (num_not_tok cCOMMA n v H); [discriminate | reflexivity]. Qed.
 
+(* ---------- the `! %num%` test does not fire on the tokens of item lists ---------- *)
+Lemma is_bang_num_false t r : is_tok cBANG t = false -> is_bang_num t r = false.
+Proof. intros H. unfold is_bang_num. now rewrite H. Qed.
+Lemma num_not_bang n v : num n v -> is_tok cBANG n = false.
+Proof. intros H. apply (num_not_tok cBANG n v H); [discriminate | reflexivity]. Qed.
+Ltac nobang :=
+  repeat (rewrite is_bang_num_false by (first [reflexivity | (eapply num_not_bang; eassumption)]));
+  cbv beta iota.
+
 (* ---------- one group ---------- *)
 Lemma walk_group it g rest prev z :
   gshape it g -> item_ok it = true -> okprev prev ->
@@ -95,7 +104,7 @@ Lemma walk_group it g rest prev z :
 Proof.
   intros G OK P. destruct G as [n v Hn | na nb a b Ha Hb | na a Ha | nb b Hb]; cbn [item_ok] in OK.
   - (* v *)
-    cbn [app walk denote_item_b].
+    cbn [app walk denote_item_b]. nobang.
     rewrite (t_eq_num n v z Hn OK).
     destruct (z =? v)%Z; cbn [orelse]; [reflexivity|].
     rewrite t_range_notcolon by reflexivity. cbn [orelse].
@@ -107,7 +116,7 @@ Proof.
     rewrite t_to_notcolon by reflexivity. cbn [orelse]. reflexivity.
   - (* a:b *)
     apply andb_prop in OK as [OK Hab]. apply andb_prop in OK as [Ia Ib].
-    cbn [app walk denote_item_b].
+    cbn [app walk denote_item_b]. nobang.
     rewrite (t_eq_num na a z Ha Ia).
     destruct (Z.eqb_spec z a) as [->|Nza]; cbn [orelse].
     { replace (a <=? a)%Z with true by lia. replace (a <=? b)%Z with true by lia. reflexivity. }
@@ -131,7 +140,7 @@ Proof.
     rewrite t_from_notnum by reflexivity. cbn [orelse].
     rewrite t_to_notcolon by reflexivity. cbn [orelse]. reflexivity.
   - (* a: *)
-    cbn [app walk denote_item_b].
+    cbn [app walk denote_item_b]. nobang.
     rewrite (t_eq_num na a z Ha OK).
     destruct (Z.eqb_spec z a) as [->|Nza]; cbn [orelse].
     { replace (a <=? a)%Z with true by lia. reflexivity. }
@@ -148,7 +157,7 @@ Proof.
     rewrite t_from_notnum by reflexivity. cbn [orelse].
     rewrite t_to_notcolon by reflexivity. cbn [orelse]. reflexivity.
   - (* :b *)
-    cbn [app walk denote_item_b].
+    cbn [app walk denote_item_b]. nobang.
     rewrite t_eq_colon. cbn [orelse].
     rewrite t_range_notnum by reflexivity. cbn [orelse].
     rewrite t_from_notnum by reflexivity. cbn [orelse].
@@ -355,4 +364,85 @@ Proof.
     + fold (all_valid_ok cs). destruct (compliant text); [|reflexivity]. rewrite IH. cbn [andb].
       destruct (all_valid_ok cs); reflexivity.
     + rewrite IH. fold (all_valid_ok cs). destruct (all_valid_ok cs); reflexivity.
+Qed.
+
+(* ---------- !v : all values are accepted, except v  (fix b7bc34c) ---------- *)
+Lemma valid_tokens_bang n v : num n v -> valid_tokens (cBANG :: n) = [[cBANG]; n; [cCOMMA]].
+Proof.
+  intros H. unfold valid_tokens. cbn [app].
+  assert (L : lex (cBANG :: n ++ [cCOMMA]) = [cBANG] :: lex (n ++ [cCOMMA])) by reflexivity.
+  rewrite L. rewrite lex_app_sep by reflexivity. rewrite (lex_num n v H).
+  rewrite merge_neg_other by reflexivity.
+  rewrite (merge_ntoks n v _ H). reflexivity.
+Qed.
+
+Lemma int_arg_valid_bang n v z :
+  num n v -> in64 v = true -> int_arg_valid (cBANG :: n) z = Some (negb (z =? v)%Z).
+Proof.
+  intros H I. unfold int_arg_valid. rewrite (valid_tokens_bang n v H). cbn [walk].
+  unfold is_bang_num. change (is_tok cBANG [cBANG]) with true. rewrite (num_is_num n v H). cbn [andb].
+  unfold bang_result. now rewrite (to_big_num n v H I).
+Qed.
+
+Lemma num_nxt_sign_or_digit n v :
+  num n v -> (nxt n =? cMINUS) || (nxt n =? cPLUS) || is_digit (nxt n) = true.
+Proof.
+  intros H. apply num_shape in H. destruct H as [d C|d C].
+  - reflexivity.
+  - destruct (canon_hd_digit d C) as (c & r & -> & Hc). cbn [nxt]. rewrite Hc. now rewrite orb_true_r.
+Qed.
+
+Lemma compliant_bang n v : num n v -> compliant (cBANG :: n) = true.
+Proof.
+  intros H.
+  assert (G : compl_go (cBANG :: n) false false false = true).
+  { cbn [compl_go]. change (is_digit cBANG) with false. change (cBANG =? cCOLON) with false.
+    change ((cBANG =? cMINUS) || (cBANG =? cPLUS)) with false. change (cBANG =? cCOMMA) with false.
+    change (cBANG =? cDOT) with false. change ((cBANG =? cE) || (cBANG =? ce)) with false.
+    change (cBANG =? cBANG) with true. cbv iota.
+    rewrite (num_nxt_sign_or_digit n v H). cbn [andb].
+    rewrite <- (app_nil_r n). now rewrite (compl_num n v [] _ _ _ H). }
+  unfold compliant. rewrite (compl_go_cstr _ _ _ _ G). exact G.
+Qed.
+
+(* ---------- the whole documented language ---------- *)
+Lemma parse_vexpr_cases s e :
+  parse_vexpr s = Some e ->
+  (exists n v, s = cBANG :: n /\ num n v /\ e = VNot v) \/
+  (exists l, parse_valid s = Some l /\ e = VList l).
+Proof.
+  unfold parse_vexpr. destruct s as [|c s].
+  - destruct (parse_valid []) eqn:P; [|discriminate]. intros [= <-]. right. eauto.
+  - destruct (N.eq_dec c 33) as [->|Nc].
+    + destruct (parse_num s) as [v|] eqn:P; [|discriminate]. intros [= <-]. left. exists s, v. auto.
+    + assert ((match c with 33 => option_map VNot (parse_num s) | _ => option_map VList (parse_valid (c :: s)) end)
+              = option_map VList (parse_valid (c :: s))) as ->.
+      { destruct c as [|p]; [reflexivity|]. repeat (destruct p as [p|p|]; try reflexivity). congruence. }
+      destruct (parse_valid (c :: s)) eqn:P; [|discriminate]. intros [= <-]. right. eauto.
+Qed.
+
+Lemma int_arg_valid_denote_v_b s e z :
+  parse_vexpr s = Some e -> vexpr_ok e = true -> int_arg_valid s z = Some (denote_v_b e z).
+Proof.
+  intros H OK. destruct (parse_vexpr_cases s e H) as [(n & v & -> & Hn & ->)|(l & P & ->)].
+  - now apply int_arg_valid_bang.
+  - now apply int_arg_valid_denote_b.
+Qed.
+
+Lemma denote_v_b_spec e z : denote_v_b e z = true <-> denote_v e z.
+Proof. destruct e as [v|l]; cbn; [lia | apply denote_b_spec]. Qed.
+
+Lemma int_arg_valid_vspec s e z :
+  parse_vexpr s = Some e -> vexpr_ok e = true ->
+  (int_arg_valid s z = Some true <-> denote_v e z) /\ int_arg_valid s z <> None.
+Proof.
+  intros H OK. rewrite (int_arg_valid_denote_v_b s e z H OK). split; [|discriminate].
+  rewrite <- denote_v_b_spec. split; [now intros [= ->] | now intros ->].
+Qed.
+
+Lemma vparses_compliant s e : parse_vexpr s = Some e -> compliant s = true.
+Proof.
+  intros H. destruct (parse_vexpr_cases s e H) as [(n & v & -> & Hn & ->)|(l & P & ->)].
+  - now apply (compliant_bang n v).
+  - now apply (parses_compliant s l).
 Qed.
